@@ -6,6 +6,7 @@ import Driver.Suites.Build
 import SaModel.Backend.Adapters
 import SaModel.Build.Finish
 import SaModel.Spec.Decode
+import SaModel.Spec.Interp
 /-
 suite `backend` (C19): one schema, one list of records, every entry point of the three back ends.
 
@@ -190,6 +191,10 @@ def handle (j : Json) : Except String Verdict := do
   if rows.isEmpty then tags := "trivial" :: tags
   if fields.any (fun f => !f.metadata.isEmpty) then tags := "top-metadata" :: tags
   let c16 := if hasPanic ser || hasPanic de || hasPanic via || hasPanic (get j "cross_out") || hasPanic (get j "fields_rt") then "fail" else "pass"
+  -- records that are not the call stream of any `Serialize` implementation (a map value without its key, …) are
+  -- outside the property's quantifier ("records as in C01/C02"); what the builders do with them is the build suite's
+  if (rows.map (interpRow ext fields)).any isMalformed then
+    return { agree := true, spec := [("C19", "na"), ("C16", c16)], tags := ("malformed-stream" :: tags).eraseDups }
   -- the first failure of each kind
   let mut specSig := ""
   let mut specWhy := ""
